@@ -137,8 +137,8 @@ def class_table():
     return out
 
 
-def class_flags():
-    return [[n, FLAGS[n]] for n in CLASSES if FLAGS[n]]
+def class_flags(with_scope=True):
+    return [[n, FLAGS[n]] for n in CLASSES if FLAGS[n] and (with_scope or n != 'Scope')]
 
 
 # ------------------------------------------------------------------ codec
@@ -562,6 +562,8 @@ def gen_dest(rng, heap, root, maxlen, want_present, absent_tail, star_p=0.15):
                                      ('idx', {'i': 0}), ('key', {'s': '0'})]))
         steps.append(rng.choice([('key', {'s': rng.choice(NEW_NAMES)}), ('attr', {'s': rng.choice(NEW_NAMES)}),
                                  ('idx', {'i': 0})]))
+    elif want_present and not children(heap, parent) and steps:
+        pass        # the walk ended on a leaf: its last step is the (existing) final step
     else:
         steps.append(final_step(rng, heap, parent, want_present))
     # wildcards: replace a prefix step by `*` (the rest keeps addressing one child's shape)
